@@ -19,7 +19,8 @@ RULE = ("DateTimes = boundary grid (years 1000/9999, leap days, midnight/noon/12
         "checked against the CLDR category of the NUMBER and the documented suffix table), "
         "sequences (random token sequences with literal separators, [..] and backslash escapes), named (all to_*_string helpers), "
         "roundtrip-full / roundtrip-names / fill-now (Formatter.parse(dt.format(fmt), fmt, now, locale) with an explicit now; full-date formats also go "
-        "through pendulum.from_format), nonmatching (corrupted strings must raise ValueError), parse-misc (direct parse inputs: 12h/meridiem, "
+        "through pendulum.from_format), roundtrip-ordinal-day (the ordinal day token Do as the day of a full date — 'YYYY MM Do', 'Do MMMM YYYY' — and alone, in all 27 "
+        "locales on the days 1, 2, 3, 4, 8, 11, 12, 13, 21, 22, 23, 30, 31 where an ordinal rule changes category plus two seed-rotated days), nonmatching (corrupted strings must raise ValueError), parse-misc (direct parse inputs: 12h/meridiem, "
         "quarters, weekdays, ordinal dates, two-digit years, integer timestamps alone and next to other tokens), roundtrip-timestamp (tokens X and x, "
         "format then from_format, at the structurally special places of the calendar: the three days around every century end 0100..9900 second by "
         "second at the day boundaries, 400-year boundaries, year ends of every position in the 4/100/400-year cycles, leap days and Feb 28/Mar 1 of "
@@ -38,7 +39,8 @@ TRUSTED = ["hand model of Formatter.format/_format_token/_format_localizable_tok
            "fingerprints (Proofs/C08SourceTie.v) and by the correspondence run; all tables (_TOKENS alternatives, _TOKENS_RULES, _LOCALIZABLE_TOKENS, "
            "_REGEX_TOKENS as regex ASTs, _PARSE_TOKENS, _FORMATS, to_*_string bodies, 27 locales incl. the ordinal lambdas) are translated from /repo on every run",
            "CPython re semantics (leftmost match, ordered alternation, greedy quantifiers with backtracking, re.sub treating a None replacement as empty) "
-           "are modelled by Model/FormatterParse.mre and the tokenizers; re.escape by its special-character table",
+           "are modelled by Model/FormatterParse.mre and the tokenizers (shape invariance of that matcher — same spans on inputs its character tests cannot tell apart — is PROVED in "
+           "Proofs/MreShape.v; that it is CPython's semantics is trusted and compared on every round-trip case); re.escape by its special-character table",
            "zoneinfo (utcoffset/tzname of the case DateTimes) is the specification side for the zone inputs; the implementation's own values are echoed and compared",
            "timestamp tokens: float(text) / str(float) of Formatter._check_parsed are modelled on integers (Model/FormatterParse.ts_of_text: exact for integer text below 10^15, "
            "argument in the comment there) and validated by the roundtrip-timestamp / parse-misc correspondence; helpers.local_time is the translated pure-Python function "
@@ -62,6 +64,9 @@ ALL_TOKENS = ['Mo', 'MMMM', 'MMM', 'MM', 'M', 'Do', 'DDDo', 'DDDD', 'DDD', 'DD',
               'x', 'X', 'zz', 'z', 'ZZ', 'Z', 'LTS', 'LT', 'LLLL', 'LLL', 'LL', 'L']
 LOCALIZABLE = ['Qo', 'MMMM', 'MMM', 'Mo', 'DDDo', 'Do', 'dddd', 'ddd', 'dd', 'do', 'e', 'eo', 'Wo', 'wo', 'A', 'a', 'LTS', 'LT', 'LLLL', 'LLL', 'LL', 'L']
 NEEDS_WEEK_DATA = ('e', 'eo')
+ORDINAL_DAYS = [1, 2, 3, 4, 8, 11, 12, 13, 21, 22, 23, 30, 31]
+# locales whose custom.py has no "ordinal" suffix table (ordinalize() renders the bare number) — finding do-token-no-ordinal-table
+NO_ORDINAL_TABLE = ('da', 'de', 'fa', 'id', 'ja', 'ko', 'lt', 'pl', 'pt_br', 'ru', 'sk', 'sv', 'ua', 'zh')
 TOKEN_LETTERS = set("MDdeEwWQYgGaAhHkmsSxXzZL")
 HELPERS = ["to_time_string", "to_datetime_string", "to_day_datetime_string", "to_atom_string", "to_cookie_string", "to_iso8601_string",
            "to_rfc822_string", "to_rfc850_string", "to_rfc1036_string", "to_rfc1123_string", "to_rfc2822_string", "to_rfc3339_string",
@@ -315,6 +320,15 @@ def cases(tier, seed):
             if k < 3:
                 s2 = mk_dt("fixed", 0, 2021, 3, 1 + k * 3, 0, 0, 0, 0)     # same week as `now` (Mon 2021-03-01 .. Sun 03-07)
                 out.append({"stream": "roundtrip-names", "fn": "roundtrip", "args": [loc, s2, [["tok", "dddd"]], now, "weekday-only"]})
+    # the ordinal day-of-month token Do as the day of a full date (and alone, month and year from `now`), every locale, on the days where an
+    # ordinal rule changes category (1, 2, 3, 8, 11, 21, 22, 23, 31 ...) and a seed-rotated remainder
+    for li, loc in enumerate(LOCALES):
+        for d in ORDINAL_DAYS + [5 + (li + seed + j * 7) % 26 for j in range(2)]:
+            mo = (1, 3, 5, 7, 8, 10, 12)[(li + d) % 7]
+            s = mk_dt("fixed", 0, 2000 + (d * 37 + li) % 50, mo, d, 0, 0, 0, 0)
+            out.append({"stream": "roundtrip-ordinal-day", "fn": "roundtrip", "args": [loc, s, [["tok", "YYYY"], ["lit", " "], ["tok", "MM"], ["lit", " "], ["tok", "Do"]], now, "names"]})
+            out.append({"stream": "roundtrip-ordinal-day", "fn": "roundtrip", "args": [loc, s, [["tok", "Do"], ["lit", " "], ["tok", "MMMM"], ["lit", " "], ["tok", "YYYY"]], now, "names"]})
+            out.append({"stream": "roundtrip-ordinal-day", "fn": "roundtrip", "args": [loc, s, [["tok", "Do"]], now, "ordinal-day-only"]})
     # 6. strings that do not match
     for s in aw[: (200 if big else 60)]:
         c = roundtrip_case(rnd, s, now, "full")
@@ -1207,6 +1221,14 @@ def known(c, backend, r):
             return "from-format-backslash-escape"
         if r[0] == 3 and any(k == "br" and any(ch in TOKEN_LETTERS for ch in v[:-1]) for k, v in parts):
             return "from-format-escape-unprotected"
+        # finding do-token-no-ordinal-table: Formatter._LOCALIZABLE_TOKENS["Do"] builds its pattern from locale.get("custom.ordinal").values();
+        # the 14 locales without that table give None.values() -> AttributeError for every text (format() renders the bare day number there)
+        if "Do" in toks and loc in NO_ORDINAL_TABLE and r[0] == 3 and r[2] == "AttributeError":
+            return "do-token-no-ordinal-table"
+        # finding do-token-it-many-unmatched: it has only {"other": "°"}; its CLDR rule puts 8 and 11 (80, 800) in category "many", which
+        # ordinalize() renders bare ("8", "11") while the Do pattern demands \d+° — the rendered text does not match its own format
+        if "Do" in toks and loc == "it" and s["f"][2] in (8, 11) and r[0] == 3 and r[2] == "ValueError" and ordinal_of("it", s["f"][2]) == str(s["f"][2]):
+            return "do-token-it-many-unmatched"
         if loc == "tr" and parts[-1] == ["tok", "dddd"] and _dt.date(*s["f"][:3]).weekday() == 5 and r[0] == 0:
             return "tr-cumartesi-prefix"
         # finding x-negative-fraction: the millisecond timestamp of an instant before the epoch that has a millisecond part comes back with
@@ -1225,18 +1247,32 @@ def known(c, backend, r):
 
 LEVEL_TEXT = ("Machine-checked Coq theorems about an executable model of Formatter.format/parse whose tables are regenerated from /repo on every run: "
               "decimal rendering/parsing round trip, one theorem per numeric token (rendered text = padded decimal of the stdlib quantity, all years), "
-              "verbatim escapes, the composition of every named format, and the from_format inverse for the fixed-width full date/time/fraction/offset class "
-              "proved after the matching step, the day-of-year step (DDDD/DDD through pendulum.parse('YYYY-DDD')) proved equal to the calendar in both parser "
-              "backends (finding rs-ordinal-month-end repaired: from_format is backend-independent in the model); the timestamp tokens X/x through from_format "
-              "(rendered count read back, local_time of either backend = the calendar for every second of the years 1..9999, hence from_format inverts format for X and — at or after the epoch "
-              "or on whole seconds — for x; before the epoch x is refuted with its exact wrong value, finding x-negative-fraction; the whole path computed in the kernel on 31 structurally special "
-              "instants x 2 tokens x 2 backends); a state machine for the process-wide default locale with failed_set_keeps_configuration, result_independent_of_history, "
-              "explicit_locale_independent_of_configuration; plus a three-way correspondence (implementation in both backends / model / stdlib oracle) over every token, "
-              "27 locales, random token sequences and round trips.")
+              "localized names by table in all 27 locales (total, injective), verbatim escapes, the composition of every named format. from_format INVERTS format, with no "
+              "hypothesis about the regex, for every DateTime of the years 1000..9999 with a whole-minute offset and 'YYYY-MM-DD HH:mm:ss.SSSSSS Z|ZZ' "
+              "(from_format_inverts_format: tokenisation, pattern assembly, matching, _get_parsed_value, offset arithmetic, _check_parsed; the matching step is discharged by "
+              "Proofs/MreShape.v — the anchored search and the re.sub pass return the same spans on inputs the pattern's character tests cannot tell apart, "
+              "from_format_search_shape_invariant / from_format_matches_by_representative — plus one kernel computation per text shape, from_format_matching_step); "
+              "for localized month names 'YYYY MMMM DD' / 'YYYY MMM DD' in every shipped locale, every month and year (from_format_inverts_localized_month_names_partial / "
+              "_month_abbr_partial; excluded: ja, ko — and zh for MMM — whose names contain digits, covered by correspondence); for localized weekday names in all 27 locales and "
+              "every valid date: 'dddd YYYY-MM-DD', 'ddd YYYY-MM-DD', 'YYYY-MM-DD ddd' without exception and 'YYYY-MM-DD dddd' except exactly tr/Saturday "
+              "(from_format_inverts_localized_weekday_names, _weekday_name_last, from_format_tr_saturday_is_the_only_exception = finding tr-cumartesi-prefix); for the named formats "
+              "in locale en: atom / w3c to the second, rfc1123 / rfc2822 / rss for every DateTime, rfc822 / rfc1036 exactly inside the two-digit-year window 1969..2068 "
+              "(outside it refuted with the value that comes back), cookie / rfc850 rejected on every text (token zz is not supported by from_format). Fields absent from the format "
+              "are filled from `now` (from_format_*_fills_* theorems), a non-matching string raises ValueError (from_format_mismatch_raises). The day-of-year step (DDDD/DDD through "
+              "pendulum.parse('YYYY-DDD')) equals the calendar in both parser backends, so the model of from_format is backend-independent (from_format_backend_independent). "
+              "Timestamp tokens X/x: rendered count read back, local_time of either backend = the calendar for every second of the years 1..9999, hence from_format inverts format for X "
+              "and — at or after the epoch or on whole seconds — for x; before the epoch x is refuted with its exact wrong value (finding x-negative-fraction); the whole path computed in "
+              "the kernel on 31 structurally special instants x 2 tokens x 2 backends. A state machine for the process-wide default locale (failed_set_keeps_configuration, "
+              "result_independent_of_history, explicit_locale_independent_of_configuration, session_roundtrip_is_the_stateless_roundtrip). Plus a three-way correspondence "
+              "(implementation in both backends / model / stdlib oracle) over every token, 27 locales, random token sequences and round trips.")
 DESIGN_REF = "DESIGN.md section 4 C08"
 LEVEL_NOTE = ("Trusted: Coq kernel+VM, the generators, the hand-written control flow of the model (fingerprinted + validated by correspondence), the model of CPython's re "
-              "for the constructs used. The regex matching step of from_format is validated by correspondence and stated as a hypothesis in the inverse theorem (_partial). "
-              "Inside the Coq model (dispatch entries compared with the implementation): X/x of from_format with local_time per backend (fmt_roundtrip / fmt_parse), whole histories of "
-              "set_locale / format / parse (fmt_session). Oracle only: the corrupted strings of the nonmatching stream, pendulum.from_format's own result inside round trips and sessions "
-              "(its parts come from the modelled Formatter.parse).")
-TECHNIQUE = "Coq proof (induction on digit lists, lia, vm_compute on generated tables) over translated tables + differential correspondence + stdlib oracle"
+              "for the constructs used. from_format_inverts_format_partial (matching step as a hypothesis) is kept beside the unconditional from_format_inverts_format. "
+              "Correspondence/oracle only (no universal theorem): round trips of other full-date layouts (separators, token order, 12-hour + A, fraction widths below 6, DDDD, the z token with "
+              "zone names), month names of ja/ko(/zh) and every format with the ordinal day token Do — where the model and the implementation agree that from_format FAILS: AttributeError in "
+              "the 14 locales without a custom ordinal table (finding do-token-no-ordinal-table) and ValueError for it on the 8th/11th (finding do-token-it-many-unmatched); "
+              "the bracket / backslash escape findings. Inside the Coq model (dispatch entries compared with the implementation): X/x of from_format with local_time per backend "
+              "(fmt_roundtrip / fmt_parse), whole histories of set_locale / format / parse (fmt_session). Oracle only: the corrupted strings of the nonmatching stream, "
+              "pendulum.from_format's own result inside round trips and sessions (its parts come from the modelled Formatter.parse).")
+TECHNIQUE = ("Coq proof (induction on digit lists, lia, vm_compute on generated tables, regex shape invariance + one kernel computation per text shape and per locale table entry) "
+             "over translated tables + differential correspondence + stdlib oracle")
